@@ -126,3 +126,24 @@ def _pages_lemma():
 
 _pages_lemma._mod = __name__
 W.lemmas = getattr(W, 'lemmas', []) + [('C17', 'pages', _pages_lemma)]
+
+
+# ---------------------------------------------------------------- replay of counter-models on the real Range
+def _range_replay(name):
+    def replay(model, vc):
+        import dawgie.db.basis as basis
+        ev = lambda t: model.eval(t, model_completion=True)
+        r = vc.inputs['self']
+        start = ev(RANGE.get(r, 'start')).as_long()
+        stop_t = RANGE.get(r, 'stop')
+        stop = None if z3.is_true(ev(OI.is_none(stop_t))) else ev(OI.val(stop_t)).as_long()
+        x = ev(vc.inputs['member' if name == '__contains__' else 'other']).as_long()
+        real = basis.Range(start, stop)
+        got = (x in real) if name == '__contains__' else (real >= x)
+        want = (start <= x and (stop is None or x < stop)) if name == '__contains__' else (start >= x)
+        return {'reproduced': bool(got) != want, 'input': {'range': [start, stop], 'value': x}, 'observed': got, 'expected': want}
+    return staticmethod(replay)
+
+
+range_contains.replay = _range_replay('__contains__')
+range_ge.replay = _range_replay('__ge__')
